@@ -547,7 +547,8 @@ def ops_strategy():
 
 
 def plan(tier, seed):
-    return [dict(name="timelines-%d" % i, kind="t", n=500 if tier == "quick" else 20000) for i in range(16)]
+    return [dict(name="timelines-%d" % i, kind="t", n=500 if tier == "quick" else 20000) for i in range(16)] + \
+           [dict(name="tracing-timelines", kind="t", n=100 if tier == "quick" else 3000, tracing=True)]   # once more with debug tracing on
 
 
 def run(spec, ctx):
